@@ -138,6 +138,7 @@ type effClause struct {
 type effSpec struct {
 	key      string
 	requires []effClause
+	assumes  []effClause
 	ensures  []effClause
 	xensures []effClause
 	modifies []effClause
